@@ -661,3 +661,38 @@ def null_test(tr, i):
                 obj = m_.group(1)          # a copy of the handle compared: the test is about the handle
             return (obj, bool(br.val) if ce['op'] == '!=' else (not br.val))
     return nullness(br)
+
+
+def split_select(p):
+    """'(C ? A : B)' -> (C, A, B) or None (balanced parentheses)"""
+    if not (p.startswith('(') and p.endswith(')')):
+        return None
+    body = p[1:-1]; depth = 0; q = c = None
+    for i, ch in enumerate(body):
+        if ch == '(':
+            depth += 1
+        elif ch == ')':
+            depth -= 1
+        elif depth == 0 and body[i:i + 3] == ' ? ' and q is None:
+            q = i
+        elif depth == 0 and body[i:i + 3] == ' : ' and q is not None and c is None:
+            c = i
+    if q is None or c is None:
+        return None
+    return body[:q], body[q + 3:c], body[c + 3:]
+
+
+def resolve_select(p, before):
+    """value of a conditional expression on this path: the arm chosen by the branch on its condition"""
+    for _ in range(3):
+        m_ = re.fullmatch(r'(?:ctor|move|forward)\((\(.* \? .* : .*\))\)', p or '')
+        if m_:
+            p = m_.group(1)          # a conditional expression wrapped by a conversion / move
+        sp = split_select(p or '')
+        if not sp:
+            return p
+        br = next((it for it in reversed(before) if it.k == 'branch' and (it.get('opath') == sp[0] or it.get('path') == sp[0])), None)
+        if br is None:
+            return p
+        p = sp[1] if br.val else sp[2]
+    return p
